@@ -92,6 +92,9 @@ func (s *spyStore) do(ctx context.Context, op, sid string, arg map[string]any, r
 	if res == nil {
 		res = map[string]any{"ex": false}
 	}
+	if g.check.quiet {
+		return err
+	}
 	ev["res"] = res
 	ev["err"] = err != nil
 	ev["probe"] = d.probe(s, sid, g.check.f)
@@ -209,6 +212,9 @@ func (j *spyJWKS) Get(ctx context.Context, cfg *oidcv1.OIDCConfig) (jwk.Set, err
 		if err != nil {
 			res = "err"
 		}
+	}
+	if g.check.quiet {
+		return set, err
 	}
 	d.rec.emit(map[string]any{"ev": "jwks", "n": g.check.n, "c": g.check.id, "f": g.check.f, "res": res,
 		"injected": g.dir.Jwks == "fail"})
